@@ -933,7 +933,9 @@ pub fn ppoprf(tier: &str, seed: u64) {
 pub fn export_import(src: &Server) -> Server {
   let bytes = bincode::serialize(&src.get_private_key()).expect("serialize key state");
   let st: ServerKeyState = bincode::deserialize(&bytes).expect("deserialize key state");
-  let mut fresh = Server::new(vec![]).expect("Server::new");
+  // the importing instance already has an identity of its own (key, tags): everything of it
+  // must be replaced by the imported state
+  let mut fresh = Server::new(vec![1, 2, 3, 200]).expect("Server::new");
   fresh.set_private_key(st);
   fresh
 }
